@@ -57,7 +57,31 @@ INSIDE_EXTRA = [
     ("list-basic", "xs = [3, 1, 2]\nxs.append(5)\nmon.write(len(xs))\nmon.write(xs[0] + xs[-1])\n"),
     ("nested-break", "n = 0\nwhile n < 5:\n    n += 1\n    for i in range(4):\n        if i == 2:\n            break\n        mon.write(i + n * 10)\n"),
     ("cond-expr", "a = 3\nb = a if a > 2 else 0\nmon.write(b)\n"),
+    ("helper-mixed-returns", "def scale(v):\n    if v > 10:\n        return v / 2.0\n    return v\nmon.write(scale(25))\nmon.write(scale(4))\nx = scale(31)\nmon.write(x)\n"),
+    ("helper-float", "def half(v):\n    return v * 0.5\nmon.write(half(5))\nmon.write(half(4.0))\n"),
+    ("float-arith", "x = 1.5\ny = x * 3 + 0.25\nmon.write(y)\nmon.write(y > 4)\n" if False else "x = 1.5\ny = x * 3 + 0.25\nmon.write(y)\n"),
 ]
+
+
+def same_events(a, b):
+    """serial lines equal as text; a device float/double line (bit pattern) equals a Python number numerically"""
+    import struct
+    if len(a) != len(b):
+        return False
+    for (ka, va), (kb, vb) in zip(a, b):
+        if ka != kb:
+            return False
+        if ka == "w" and isinstance(vb, str) and (vb.startswith("float:g") or vb.startswith("double:h")):
+            try:
+                x = float(va)
+            except ValueError:
+                return False
+            y = struct.unpack(">f", bytes.fromhex(vb[7:]))[0] if vb.startswith("float:g") else struct.unpack(">d", bytes.fromhex(vb[8:]))[0]
+            if abs(x - y) > 1e-4 * max(1.0, abs(x)):
+                return False
+        elif va != vb:
+            return False
+    return True
 
 
 def e_compare(ctx, key, src, passes, res, in_domain):
@@ -72,7 +96,7 @@ def e_compare(ctx, key, src, passes, res, in_domain):
     fw = pyoracle.fw_events(res.trace)
     a = [(k, str(v) if k == "w" else int(v)) for k, v in py]
     b = [(k, str(v) if k == "w" else int(v)) for k, v in fw]
-    if a != b:
+    if not same_events(a, b):
         i = next((j for j, (x, y) in enumerate(zip(a, b)) if x != y), min(len(a), len(b)))
         ctx.fail(key, f"firmware trace differs from CPython at event {i}: python {a[i:i+4]} firmware {b[i:i+4]}", {"script": src, "passes": passes, "python": a[:40], "firmware": b[:40]})
         return False
